@@ -55,6 +55,7 @@ TRACED = [Popen.cancel_task, Popen.work, Popen._launch_task,
           exec_base.AgentExecutingComponent.handle_timeout,
           comp_mod.BaseComponent.is_canceled]
 TRACED_CODES = set(f.__code__ for f in TRACED)
+_GUARDED = None
 
 
 # ------------------------------------------------------------------------------
@@ -141,6 +142,57 @@ class TaskRegistry(dict):
     def pop(self, uid, *default):
         self._note(uid)
         return dict.pop(self, uid, *default)
+
+
+class GuardedList(list):
+    '''`_to_tasks`: changes are recorded with the lock state of the writer'''
+
+    world = None
+
+    def _note(self, op):
+        w = GuardedList.world
+        if w is not None:
+            me   = w.sched.me()
+            lock = getattr(w.c, '_to_lock', None)
+            w.to_writes.append((op, me.name if me else None,
+                                getattr(lock, 'owner', None) is me))
+
+    def append(self, x):
+        self._note('append')
+        list.append(self, x)
+
+    def extend(self, x):
+        self._note('extend')
+        list.extend(self, x)
+
+    def clear(self):
+        self._note('clear')
+        list.clear(self)
+
+    def __delitem__(self, i):
+        self._note('del')
+        list.__delitem__(self, i)
+
+
+def guarded_popen(cls):
+    '''subclass whose `_to_tasks` attribute records re-bindings'''
+
+    class Guarded(cls):
+
+        @property
+        def _to_tasks(self):
+            return self.__dict__['_to_tasks_']
+
+        @_to_tasks.setter
+        def _to_tasks(self, val):
+            g = GuardedList(val)
+            if '_to_tasks_' in self.__dict__:
+                g._note('rebind')
+            self.__dict__['_to_tasks_'] = g
+    Guarded.__name__ = cls.__name__
+    Guarded.__qualname__ = cls.__qualname__
+    Guarded.__module__ = cls.__module__
+    return Guarded
 
 
 class FakeSP(object):
@@ -262,8 +314,11 @@ class World(object):
         OwnedTask.world = TaskRegistry.world = self
         c._check_lock  = rs.CLock(s, 'check')
         c._watch_queue = queue.Queue()
-        c._to_tasks    = list()
+        self.to_writes = list()
+        GuardedList.world = self
+        c.__class__    = _GUARDED
         c._to_lock     = rs.CLock(s, 'to')
+        c._to_tasks    = list()
         c._term        = rs.CEvent(s)
         c.register_publisher(rpc.STATE_PUBSUB)
         c.register_publisher(rpc.CONTROL_PUBSUB)
@@ -285,13 +340,17 @@ class World(object):
                 return p, p
             return create
         self.timeout_armed = False
+        self.n_armed = 0
         real_handle_timeout = c.handle_timeout
 
         def handle_timeout(task):
             real_handle_timeout(task)
             if task['description'].get('timeout') or \
                task['description'].get('startup_timeout'):
-                self.timeout_armed = True
+                self.n_armed += 1
+                want = scn['n_tasks'] if scn.get('timeout_all') else 1
+                if self.n_armed >= want:
+                    self.timeout_armed = True
         c.handle_timeout = handle_timeout
 
         c._create_exec_script   = mk_script('exec')
@@ -300,7 +359,8 @@ class World(object):
 
         self.tasks = [make_task('t%d' % (i + 1), sbox,
                                 timeout=scn.get('timeout', 0.0)
-                                if i == 0 else 0.0,
+                                if (i == 0 or scn.get('timeout_all'))
+                                else 0.0,
                                 startup_timeout=scn.get('startup', 0.0)
                                 if i == 0 else 0.0)
                       for i in range(scn['n_tasks'])]
@@ -468,6 +528,16 @@ def judge(part, w):
                         if remover else 'is still registered'))
             break
 
+    # the list of registered run-time limits is shared by the intake, control
+    # and timeout threads: it is changed only under its lock (a change outside
+    # loses a registration made at that moment, the task then runs on for ever)
+    for op, who, locked in w.to_writes:
+        if not locked and who is not None:
+            viol('C07', 'limit-list-unlocked', '_to_tasks', '%s:%s' % (kind, op),
+                 'thread %s changes the list of run-time limits (%s) without '
+                 'holding _to_lock' % (who, op))
+            break
+
     # observation log per uid
     obs = {t['uid']: {'exec': 0, 'push': [], 'final': [], 'unsched': 0,
                       'order': []} for t in w.tasks}
@@ -500,7 +570,8 @@ def judge(part, w):
         o    = obs[uid]
         code = scn['exit_codes'][i]
         named     = uid in w.cancel_uids
-        timed     = bool(scn.get('timeout')) and i == 0
+        timed     = bool(scn.get('timeout')) and \
+                    (i == 0 or bool(scn.get('timeout_all')))
         faulty    = bool(fault) and uid == scn.get('fault_uid', 't1')
         dropped   = o['exec'] == 0       # filtered at intake
         hand_ons  = len(o['push']) + len(o['final'])
@@ -640,6 +711,10 @@ def scenarios(quick):
         add('cancel', 1, (code,), cancel=['t1'], instant_exit=True)
         add('timeout', 1, (code,), timeout=1.0, ticks=2, instant_exit=True)
     add('cancel', 2, (0, 0), cancel=['t1'], instant_exit=True)
+    # both tasks have a run-time limit and depend on it to end
+    add('timeout', 2, (None, None), timeout=1.0, ticks=2, timeout_all=True)
+    add('timeout', 2, (None, None), timeout=1.0, ticks=2, timeout_all=True,
+        bulks=[[0], [1]])
     # a process which takes its time to die after the kill
     add('cancel', 1, (None,), cancel=['t1'], slow_death=True)
     add('cancel', 2, (None, 0), cancel=['t1'], slow_death=True)
@@ -820,3 +895,6 @@ def replay(ctx, data):
     for k, (d, _) in part.violations.items():
         print('VIOLATED', k, d['what'])
     return 1 if part.violations else 0
+
+
+_GUARDED = guarded_popen(Popen)
